@@ -71,7 +71,7 @@ def mc(spec_path, cfg_path, workers=8, coverage=True, dump=None, timeout=1200, e
     """Model-check. Returns dict(ok, states, transitions, coverage, out, violation, wall_s)."""
     cwd = os.path.dirname(spec_path)
     meta = _scratch("mc")
-    cmd = ["java", "-XX:+UseParallelGC", "-XX:ParallelGCThreads=4", "-Xmx4g"]
+    cmd = ["java", "-XX:+UseParallelGC", "-XX:ParallelGCThreads=4", "-Xmx4g", "-Xss64m"]
     if depth_first:
         cmd.append("-Dtlc2.tool.queue.IStateQueue=StateDeque")
     cmd += ["-cp", JAR, "tlc2.TLC", "-workers", str(workers), "-metadir", meta, "-noGenerateSpecTE", "-config", cfg_path]
@@ -234,7 +234,7 @@ def trace_batch(spec_path, cfg_path, traces, timeout=1800, depth_first=False, en
     with open(tf, "w") as f:
         json.dump(traces, f)
     cwd = os.path.dirname(spec_path)
-    cmd = ["java", "-XX:+UseParallelGC", "-XX:ParallelGCThreads=4", "-Xmx4g"]
+    cmd = ["java", "-XX:+UseParallelGC", "-XX:ParallelGCThreads=4", "-Xmx4g", "-Xss64m"]
     if depth_first:
         cmd.append("-Dtlc2.tool.queue.IStateQueue=StateDeque")
     cmd += ["-cp", JAR, "tlc2.TLC", "-workers", "1", "-metadir", os.path.join(d, "meta"), "-noGenerateSpecTE", "-config", cfg_path, spec_path]
